@@ -62,7 +62,7 @@ theorem allocAt_refines {t : Tab} {a : AS} {L : Nat → List Nat} {k s e n : Nat
     exact ⟨_, _, rfl, f2, by simp⟩
 
 /-- **`set_uncoalescable`.** -/
-theorem setUnc_refines {t : Tab} {a : AS} {L : Nat → List Nat} {u : Nat} (h : Rel t a L) (hu : u ≤ a.units) :
+theorem setUnc_refines_rel {t : Tab} {a : AS} {L : Nat → List Nat} {u : Nat} (h : Rel t a L) (hu : u ≤ a.units) :
     setUncoalescable t (u : Int) = .ok (wUnc t (u : Int) true) ∧
     Rel (wUnc t (u : Int) true) (Runs.apply a (.setUnc u)) L := by
   have hR := h.inR_nat hu
@@ -90,7 +90,7 @@ theorem setUnc_refines {t : Tab} {a : AS} {L : Nat → List Nat} {u : Nat} (h : 
     exact ⟨Links_congr _ _ (by simp) (fun _ _ => by simp) (by simp) (fun _ _ => by simp) q1, q2, q3⟩
 
 /-- **`clear_uncoalescable`.** -/
-theorem clrUnc_refines {t : Tab} {a : AS} {L : Nat → List Nat} {u : Nat} (h : Rel t a L) (hu : u ≤ a.units) :
+theorem clrUnc_refines_rel {t : Tab} {a : AS} {L : Nat → List Nat} {u : Nat} (h : Rel t a L) (hu : u ≤ a.units) :
     clearUncoalescable t (u : Int) = .ok (wUnc t (u : Int) false) ∧
     Rel (wUnc t (u : Int) false) (Runs.apply a (.clrUnc u)) L := by
   have hR := h.inR_nat hu
@@ -157,7 +157,7 @@ theorem nodup_length_le : ∀ (N : Nat) (l : List Nat), l.Nodup → (∀ x ∈ l
     split at this <;> omega
 
 /-- **`alloc`** (first fit on the list of head `k`). -/
-theorem alloc_refines {t : Tab} {a : AS} {L : Nat → List Nat} {k n : Nat} (debug : Bool)
+theorem alloc_refines_rel {t : Tab} {a : AS} {L : Nat → List Nat} {k n : Nat} (debug : Bool)
     (h : Rel t a L) (hk : (k : Int) < t.heads) (hn : 1 ≤ n) :
     (∃ (s e : Nat) (t' : Tab) (L' : Nat → List Nat), alloc debug t (hd k) (n : Int) = .ok (t', (s : Int)) ∧ Pre a (.alloc k s n e) ∧
       Rel t' (Runs.apply a (.alloc k s n e)) L' ∧ t'.heads = t.heads) ∨
@@ -214,7 +214,7 @@ theorem alloc_refines {t : Tab} {a : AS} {L : Nat → List Nat} {k n : Nat} (deb
     exact ⟨y, e, t', L', r1, ⟨hr, hown, hn, hfit⟩, r2, r3⟩
 
 /-- **`alloc_from_unit`** on a run start: succeeds iff the run is free (on the caller's head) and fits. -/
-theorem allocFromUnit_refines {t : Tab} {a : AS} {L : Nat → List Nat} {k s e n : Nat} (debug : Bool)
+theorem allocFromUnit_refines_rel {t : Tab} {a : AS} {L : Nat → List Nat} {k s e n : Nat} (debug : Bool)
     (h : Rel t a L) (hr : IsRun a s e) (hn : 1 ≤ n) :
     (a.own s = some k → s + n ≤ e → ∃ t' L', allocFromUnit debug t (hd k) (n : Int) (s : Int) = .ok (t', (s : Int)) ∧
       Rel t' (Runs.apply a (.alloc k s n e)) L' ∧ t'.heads = t.heads) ∧
